@@ -505,6 +505,12 @@ func verifyETHTx(tx *types.Transaction, height uint64) error {
 		return ErrIllegal
 	}
 
+	// only EIP-155 (replay protected) signatures bind the transaction to this chain
+	if !ethTx.Protected() {
+		txPoolLogger.Errorf("Verify eth tx error!tx:%s,error:unprotected signature", ethTx.Hash().String())
+		return ErrIllegal
+	}
+
 	signer := eth_tx.NewEIP155Signer(common.GetChainId(height))
 	sender, err := eth_tx.Sender(signer, ethTx)
 	if err != nil {
